@@ -34,9 +34,13 @@ func (*DeflateCompress) Compress(data []byte) ([]byte, error) {
 		log.Error(err)
 		return nil, err
 	}
-	defer fw.Close()
-	fw.Write(data)
-	fw.Flush()
+	if _, err = fw.Write(data); err != nil {
+		return nil, err
+	}
+	// the stream must be closed before its bytes are taken, otherwise the final block is missing
+	if err = fw.Close(); err != nil {
+		return nil, err
+	}
 	return buf.Bytes(), nil
 }
 
